@@ -187,7 +187,9 @@ def run(ctx, replay=None):
             rnd = lines[s:e]
             off = lines[min(k, len(lines) - 1)]
             nth = sum(1 for x in rnd if x["ev"] == "inv")
-            ctx.report("history not explainable by the two-part FIFO at %s %s r=%s [C=%d B=%d threads=%d]" % (off.get("ev"), off.get("op"), off.get("r"), rnd[0]["c"], rnd[0]["b"], len({x["thr"] for x in rnd}) - 1),
+            head = ("consumers still blocked in Take() although %s items remain and the producer has stopped" % off.get("v")) if off.get("ev") == "stuck" else \
+                "history not explainable by the two-part FIFO at %s %s r=%s" % (off.get("ev"), off.get("op"), off.get("r"))
+            ctx.report("%s [C=%d B=%d threads=%d]" % (head if off.get("ev") != "stuck" else "consumers still blocked in Take() although items remain", rnd[0]["c"], rnd[0]["b"], len({x["thr"] for x in rnd}) - 1),
                        "round (C=%d, B=%d): no linearisation explains the recorded history up to line %d: %s ... offending line %s" % (
                            rnd[0]["c"], rnd[0]["b"], k - s, json.dumps(rnd[max(0, k - s - 6):k - s + 1]), json.dumps(off)), {"component": "c07", "round": rnd[:300]})
             bad += 1
